@@ -400,6 +400,21 @@ _MORE = {
 }
 for _k, _t in _MORE.items():
     SPECS[_k]["level_text"] += _t
+# session 4 (round 4 of independently produced changes)
+_MORE4 = {
+    "C02": " Session 4: a typedef NAME declared in both the including and the included file with different base types (i32 / i64; struct Tagged, c02_base.Ref) in the recursive run; a catalogue program the compiler REJECTS with its own diagnostic twice in a row is a reproduced violation (the catalogue is valid IDL); union fields with declared defaults are in the catalogue (open finding F25: the value equal to the default is rejected by the generated Read).",
+    "C03": " Session 4: VerifC03_AdapterCalls: two goroutines call through one generated client over the REAL adapter transport (framed stream, read loop, registry) with a peer that answers one by one or both replies back to back, the second reply no longer than the first: each caller gets the value for its own argument or TIMED_OUT, never another call's value (race monitor on).",
+    "C04": " Session 4: VerifC04_LargeBlock: one header value of 250 / 1030 / 4100 bytes (thorough: also 1010, 4090, 70000) with a 2-byte symbolic tail next to a small header: layout, stream reader over a transport whose RemainingBytes() is an ARBITRARY 64-bit value (buffered and compressing transports under-report), frame reader.",
+    "C05": " Session 4: VerifC05_StompBurst: a burst of 3..4 (thorough 5) well-formed STOMP messages over a connection model shaped like go-stomp (ONE process loop serving the bounded write channel - acknowledgements - and the inbound frames with a blocking hand-over to the bounded subscription channel; capacities 1 instead of 20/20/16): every message handled and acknowledged, no deadlock.",
+    "C06": " Session 4: VerifC06_ReopenedStream: the inbound stream ends after ANY number of bytes of a frame (inside the size prefix or the body), optionally after a complete exchange; the transport is reopened and the response to a fresh request - the first bytes of the new stream - is delivered.",
+    "C07": " Session 4: in VerifC07_NatsPubSub the NATS model treats SUB as asynchronous (the server knows a subscription by itself at some point or at the latest after a Flush round trip on that connection) and the publisher as ANOTHER connection: every message published after Subscribe returned must arrive.",
+    "C08": " Session 4: delimiters containing '%' ('%', thorough also '-%-'); java.util.Formatter is modelled exactly in the Java extractor (%s, %%, anything else throws). Found and fixed F27.",
+    "C11": " Session 4: VerifC11_IncludedTypedefs: typedefs across an include (typedef of an included typedef, local chain ending in the include, same-name re-export, chain INSIDE the include, typedef of an included struct), bare or as list / map element: validate() accepts, UnderlyingType terminates (200 000-instruction bound reported as a violation) with the base type / included struct, IsStruct agrees. Open finding F26 (two assertions).",
+    "C16": " Session 4: in VerifC16_ErrorOnly the error a middleware sets and the error the target returns is a pointer error, a zero-size STRUCT VALUE (like context.DeadlineExceeded) or an integer-based error at its zero value: middleware and caller see exactly that error.",
+    "C20": " Session 4: Stop may also be called before the Serve goroutine has executed its first statement (the stop request must not be lost: Serve returns, later requests are not processed).",
+}
+for _k, _t in _MORE4.items():
+    SPECS[_k]["level_text"] += _t
 for _k in ("C01", "C03", "C06", "C07", "C13", "C14", "C15", "C17", "C20"):
     SPECS[_k]["level_note"] = SPECS[_k].get("level_note", "") + " " + RACE_NOTE
 
@@ -422,11 +437,14 @@ SPECS["C10"] = {
 }
 
 HTMLGEN = {"dir": REPO + "/compiler/generator/html", "overlay": "html"}
+COMPILERPKG = {"dir": REPO + "/compiler", "overlay": "compiler"}
 
 SPECS["C19"] = {
     "level": "model_checking",
     "groups": [dict(HTMLGEN, entries=[
         {"name": "VerifC19_HTMLIndexOrder", "native": False, "quick": {"params": [0, 1]}, "thorough": {"params": [0, 1, 2]}, "expect_reach": ["end", "same-module-name-twice"]},
+    ]), dict(COMPILERPKG, entries=[
+        {"name": "VerifC19_CompilePath", "native": False, "quick": {"params": [0]}, "thorough": {"params": [0]}},
     ]), dict(PARSER, entries=[
         {"name": "VerifC19_ReferencedIncludes", "native": False, "flags": ["-all-map-orders"], "quick": {"params": [0, 1, 2, 3], "procs": 4}, "thorough": {"params": [0, 1, 2, 3], "procs": 4}},
     ])],
@@ -453,3 +471,7 @@ HOOK_COMMITS = []
 
 NOT_APPLICABLE = {
 }
+
+
+SPECS["C10"]["level_text"] += " Session 4: integer literals (field ids, argument / exception ids, enum values) are spelled plain, with a leading zero or with an explicit plus sign, cycling with the separator pattern (Thrift's IntConstant is decimal: ('+'|'-')? Digit+)."
+SPECS["C19"]["level_text"] += " Session 4: (3) VerifC19_CompilePath: the real compiler.Compile is executed twice for the SAME file from different working directories / path spellings (7 spellings: relative, ./, ../, a/../a, absolute; os.Getwd, exists, parser.ParseFrugal and generateFrugal are recording harness functions): the parser is handed the same absolute cleaned path both times - so Frugal.File / Dir, which generators use for ordering and include lookup, do not depend on the working directory."
